@@ -168,14 +168,19 @@ func cmdCheck(args []string) int {
 	// undecided obligations (no model) are given one more attempt on an otherwise idle machine with twice the time:
 	// a solver timeout under load must not be reported as a violation
 	var again []*Obligation
+	definite := false
 	for _, o := range all {
-		if !o.Cover && o.failed() && o.Res.Status != "sat" {
-			again = append(again, o)
+		if !o.Cover && o.failed() {
+			if o.Res.Status == "sat" {
+				definite = true
+			} else {
+				again = append(again, o)
+			}
 		}
 	}
-	if len(again) > 0 && len(again) <= 24 {
-		fmt.Fprintf(os.Stderr, "retrying %d undecided obligation(s) with timeout %ds\n", len(again), 2*timeout)
-		solveAll(again, workDir, 2*timeout, *keep)
+	if len(again) > 0 && len(again) <= 8 && !definite {
+		fmt.Fprintf(os.Stderr, "retrying %d undecided obligation(s) with timeout %ds\n", len(again), timeout*3/2)
+		solveAll(again, workDir, timeout*3/2, *keep)
 	}
 
 	// ---- report
